@@ -48,6 +48,6 @@ int main(void) {
 			for(size_t o = 0; o < sizeof(offs) / sizeof(offs[0]); o++) check(zones[z], (time_t)(day * 86400 + offs[o]));
 		for(int i = 0; i < 20000; i++) { x ^= x << 13; x ^= x >> 7; x ^= x << 17; check(zones[z], (time_t)((int64_t)(x % 8000000000ull) - 3000000000ll)); }
 	}
-	printf("VF-GRID: evaluated %llu failed %llu\n", evaluated, failed);
+	printf("VF-GRID: evaluated %llu failed %llu\n", evaluated, failed); fflush(stdout);
 	return failed ? 1 : 0;
 }
